@@ -309,6 +309,9 @@ def scenario_q(mode='pass'):
       time.sleep(0.3)
       test.measurements.md[1] = 2       # ... and a further point: a change like any other
       time.sleep(0.5)
+      import logging  # pylint: disable=g-import-not-at-top
+      logging.getLogger('openhtf.plugs.some_driver').info('relay K1 closed')     # a library's module-level logger: recorded too
+      time.sleep(0.5)
 
     def p2(test):
       if mode == 'stop':
